@@ -542,6 +542,23 @@ func (e *Engine) evalFunc(s *fstate, round int) {
 				if !ok || x.Op != token.MUL || !e.localStruct(al) {
 					continue
 				}
+				// a literal temporary copied into another local struct does not leave the frame here
+				if refs := x.Referrers(); refs != nil && len(*refs) > 0 {
+					internal := true
+					for _, r := range *refs {
+						st, ok := r.(*ssa.Store)
+						dst, ok2 := (ssa.Value)(nil), false
+						if ok {
+							dst, ok2 = st.Addr, true
+						}
+						if d, isAl := dst.(*ssa.Alloc); !(ok && ok2 && isAl && e.localStruct(d)) {
+							internal = false
+						}
+					}
+					if internal {
+						continue
+					}
+				}
 				tn := namedStruct(al.Type())
 				if tn == nil {
 					continue
@@ -1222,6 +1239,7 @@ func (e *Engine) localFieldAt(s *fstate, al *ssa.Alloc, f int, b *ssa.BasicBlock
 	visiting := map[*ssa.BasicBlock]bool{}
 	memo := map[*ssa.BasicBlock]AV{}
 	fail := false
+	var whole *ssa.Store
 	isFieldStore := func(ins ssa.Instruction) (*ssa.Store, bool) {
 		st, ok := ins.(*ssa.Store)
 		if !ok {
@@ -1231,7 +1249,7 @@ func (e *Engine) localFieldAt(s *fstate, al *ssa.Alloc, f int, b *ssa.BasicBlock
 			return st, true
 		}
 		if st.Addr == ssa.Value(al) {
-			fail = true // whole-struct assignment
+			whole = st // whole-struct assignment: handled by the caller of isFieldStore
 		}
 		return nil, false
 	}
@@ -1239,8 +1257,20 @@ func (e *Engine) localFieldAt(s *fstate, al *ssa.Alloc, f int, b *ssa.BasicBlock
 	var before func(x *ssa.BasicBlock, i int) AV
 	before = func(x *ssa.BasicBlock, i int) AV {
 		for j := i - 1; j >= 0; j-- {
+			whole = nil
 			if st, ok := isFieldStore(x.Instrs[j]); ok {
 				return e.at(s, st.Val, x, 2)
+			}
+			if whole != nil {
+				// g = T{...}: the literal is built in a temporary local and copied over as a whole
+				if ld, ok := whole.Val.(*ssa.UnOp); ok && ld.Op == token.MUL {
+					if src, ok := ld.X.(*ssa.Alloc); ok && src != al && e.localStruct(src) {
+						if v, ok := e.localFieldAt(s, src, f, ld.Block(), instrIndex(ld), t); ok {
+							return v
+						}
+					}
+				}
+				fail = true
 			}
 			if fail {
 				return Bottom()
